@@ -133,10 +133,10 @@ func runC05(p *Prog, r *Report) {
 		if !isAppendOf("LayerDetails")(in) {
 			return
 		}
-		c := in.(*ssa.Call)
+		c := in
 		napp++
 		okEl := false
-		for _, a := range flattenVariadic(c.Call.Args[1:]) {
+		for _, a := range collectedValues(in) {
 			if a == ssa.Value(ldAlloc) {
 				okEl = true
 			}
@@ -523,7 +523,7 @@ func naturalLoop(hdr *ssa.BasicBlock) map[*ssa.BasicBlock]bool {
 // c05PresenceExits: the audited decision on which the search through an older view's packages
 // stops (everything else must move on to the next entry).
 var c05PresenceExits = []string{
-	"artifact/image/layerscanning/trace.areLocationsEqual(φ:[]*extractor.Package[ι].Locations,param1.Packages[ι].Locations) && nil:github.com/google/osv-scalibr/extractor.Extractor != φ:[]*extractor.Package[ι].Extractor && purl.PackageURL.String(extractor.Extractor.ToPURL(φ:[]*extractor.Package[ι].Extractor,φ:[]*extractor.Package[ι])) == φ:string",
+	"artifact/image/layerscanning/trace.areLocationsEqual(φ:[]*extractor.Package[ι].Locations,param1.Packages[ι].Locations) && nil:github.com/google/osv-scalibr/extractor.Extractor != φ:[]*extractor.Package[ι].Extractor && purl.String(extractor.ToPURL(φ:[]*extractor.Package[ι].Extractor,φ:[]*extractor.Package[ι])) == φ:string",
 }
 
 // c05Presence: the inner loop over the packages extracted from an older view leaves early only when
